@@ -104,9 +104,16 @@ func (s *sortedSet[ElementType, WeightType]) addSorted(element ElementType) {
 	if listElement, created := s.elements.GetOrCreate(element, func() *sortedSetElement[ElementType, WeightType] {
 		return newSortedSetElement(element, s)
 	}); created {
+		// the initial update is delivered by OnUpdate itself while we hold the mutex; every later update has to lock.
+		// The flag is only accessed by the callback, whose invocations are serialized by its execution lock (the
+		// unsubscribe function is stored only after OnUpdate released that lock, so it cannot tell the two apart).
+		initialUpdate := true
+
 		unsubscribeFromWeightUpdates := s.weightVariable(element).OnUpdate(func(_ WeightType, newWeight WeightType) {
 			// only lock if this is not the initial update
-			if listElement.unsubscribeFromWeightUpdates != nil {
+			if initialUpdate {
+				initialUpdate = false
+			} else {
 				s.mutex.Lock()
 				defer s.mutex.Unlock()
 
